@@ -1305,6 +1305,69 @@ def _opt_insert(it, cal, args):
     return Ptr(p.cell, p.path + (("f", 0),), "ref")
 
 
+@model("Option::get_or_insert")
+def _opt_get_or_insert(it, cal, args):
+    old = it.load(args[0])
+    if old.variant != "Some":
+        it.store(args[0], some(args[1]))
+    p = it.deref(args[0])
+    return Ptr(p.cell, p.path + (("f", 0),), "ref")
+
+
+@model("Option::get_or_insert_with")
+def _opt_get_or_insert_with(it, cal, args):
+    old = it.load(args[0])
+    if old.variant != "Some":
+        it.store(args[0], some(it.call_closure(args[1], Agg("tuple", []))))
+    p = it.deref(args[0])
+    return Ptr(p.cell, p.path + (("f", 0),), "ref")
+
+
+def _vec_index_arg(it, v, idx, what, upto):
+    """concrete index of a Vec operation (panics as std does when out of range)"""
+    n = it.concretize(idx, what, limit=len(v.fields) + 2)
+    if n >= upto:
+        raise RustPanic(f"{what} index (is {n}) should be < len (is {len(v.fields)})", what)
+    return n
+
+
+@model("Vec::swap_remove")
+def _vec_swap_remove(it, cal, args):
+    v = it.load(args[0])
+    n = _vec_index_arg(it, v, args[1], "Vec::swap_remove", len(v.fields))
+    last = v.fields.pop()
+    if n == len(v.fields):
+        return last
+    out = v.fields[n]
+    v.fields[n] = last
+    return out
+
+
+@model("Vec::remove")
+def _vec_remove(it, cal, args):
+    v = it.load(args[0])
+    n = _vec_index_arg(it, v, args[1], "Vec::remove", len(v.fields))
+    return v.fields.pop(n)
+
+
+@model("Vec::insert")
+def _vec_insert(it, cal, args):
+    v = it.load(args[0])
+    n = _vec_index_arg(it, v, args[1], "Vec::insert", len(v.fields) + 1)
+    v.fields.insert(n, args[2])
+    return unit()
+
+
+@model("Vec::truncate")
+def _vec_truncate(it, cal, args):
+    v = it.load(args[0])
+    if it.branch(z3.UGE(args[1].v, len(v.fields)), "truncate-noop"):
+        return unit()
+    n = it.concretize(args[1], "truncate", limit=len(v.fields) + 1)
+    del v.fields[n:]
+    return unit()
+
+
 # ----------------------------------------------------------------------------------------- panics
 
 
